@@ -27,6 +27,7 @@ import (
 	"io"
 	"math"
 	"reflect"
+	"regexp"
 	"sort"
 	"strconv"
 	"strings"
@@ -1691,8 +1692,8 @@ func (s sortedErrors) Less(i, j int) bool {
 	// We expect the error strings to be composed of error messages,
 	// line numbers, etc. delimited by ":".
 	const errorSplitCount = 4
-	fi := strings.SplitN(s[i].s, ":", errorSplitCount)
-	fj := strings.SplitN(s[j].s, ":", errorSplitCount)
+	fi := splitErrorText(s[i].s, errorSplitCount)
+	fj := splitErrorText(s[j].s, errorSplitCount)
 	// First, order the errors by the file name.
 	if fi[0] < fj[0] {
 		return true
@@ -1720,6 +1721,21 @@ func (s sortedErrors) Less(i, j int) bool {
 		}
 	}
 	return false
+}
+
+// errorLocation matches the position an error text starts with, as printed by
+// Statement.Location: the name of the source, which may be empty and may
+// contain colons itself (C:\m.yang, http://host/m.yang), line and column.
+var errorLocation = regexp.MustCompile(`^(?:(.*?):|line )([0-9]+):([0-9]+): `)
+
+// splitErrorText splits the text of an error into at most n pieces to compare:
+// source name, line, column and message if it starts with a position, and the
+// pieces between its first colons otherwise.
+func splitErrorText(s string, n int) []string {
+	if m := errorLocation.FindStringSubmatch(s); m != nil && n >= 4 {
+		return []string{m[1], m[2], m[3], s[len(m[0]):]}
+	}
+	return strings.SplitN(s, ":", n)
 }
 
 // errorSort sorts the strings in the errors slice assuming each line starts
